@@ -30,6 +30,9 @@ pub struct Aggregator {
 
     /// Set of running sessions which have entered live mode.
     live_mode: HashSet<SessionId>,
+
+    /// Bytes (sent, received) of each running session which are already part of the totals.
+    accounted_bytes: HashMap<SessionId, (u32, u32)>,
 }
 
 impl Aggregator {
@@ -93,8 +96,7 @@ impl Aggregator {
             }
             TopicLogSyncEvent::SyncFinished { metrics } => {
                 self.session_metrics.insert(session_id, metrics.clone());
-                self.total_bytes_sent += metrics.sent_bytes();
-                self.total_bytes_received += metrics.received_bytes();
+                self.account_bytes(session_id, &metrics);
                 Some(SyncEvent::SyncEnded {
                     remote,
                     session_id,
@@ -109,12 +111,14 @@ impl Aggregator {
             }
             TopicLogSyncEvent::SessionFinished { metrics } => {
                 self.handle_session_end(session_id);
-                self.total_bytes_sent += metrics.sent_bytes();
-                self.total_bytes_received += metrics.received_bytes();
+                self.account_bytes(session_id, &metrics);
+                self.accounted_bytes.remove(&session_id);
                 None
             }
             TopicLogSyncEvent::Failed { error } => {
                 let metrics = self.handle_session_end(session_id);
+                self.account_bytes(session_id, &metrics);
+                self.accounted_bytes.remove(&session_id);
                 Some(SyncEvent::SyncEnded {
                     remote,
                     session_id,
@@ -138,6 +142,21 @@ impl Aggregator {
         self.running_sessions = self.running_sessions.saturating_sub(1);
         self.live_mode.remove(&session_id);
         self.session_metrics.remove(&session_id).unwrap_or_default()
+    }
+
+    /// Add the bytes a session transferred to the totals, counting only what was not added yet.
+    fn account_bytes(&mut self, session_id: SessionId, metrics: &Metrics) {
+        let (sent, received) = self
+            .accounted_bytes
+            .get(&session_id)
+            .copied()
+            .unwrap_or_default();
+        self.total_bytes_sent += metrics.sent_bytes().saturating_sub(sent);
+        self.total_bytes_received += metrics.received_bytes().saturating_sub(received);
+        self.accounted_bytes.insert(
+            session_id,
+            (metrics.sent_bytes(), metrics.received_bytes()),
+        );
     }
 
     /// Total running sessions for a topic.
